@@ -429,6 +429,7 @@ type detSite struct {
 
 type detEngine struct {
 	c            *Ctx
+	putM         map[*ssa.Function][2]int // keyed-store methods: parameter indices of key and value
 	loops        []*orderLoop
 	sites        []detSite
 	taintedField map[fslot]string // qualified field -> where it was filled in unspecified order
@@ -932,6 +933,155 @@ func isConstOrNil(v ssa.Value) bool {
 	return ok
 }
 
+
+// putMethods: functions that store one of their parameters into a map field of another parameter (usually the
+// receiver) under a key that is a parameter too: obj.F[k] = v. Returns the parameter indices (key, value).
+func (e *detEngine) putMethods() map[*ssa.Function][2]int {
+	if e.putM != nil {
+		return e.putM
+	}
+	e.putM = map[*ssa.Function][2]int{}
+	for _, f := range e.c.ModFns() {
+		if len(f.Params) < 3 {
+			continue
+		}
+		pidx := func(v ssa.Value) int {
+			for i, p := range f.Params {
+				if ssa.Value(p) == v {
+					return i
+				}
+			}
+			return -1
+		}
+		for _, b := range f.Blocks {
+			for _, ins := range b.Instrs {
+				mu, ok := ins.(*ssa.MapUpdate)
+				if !ok {
+					continue
+				}
+				ld, ok := mu.Map.(*ssa.UnOp)
+				if !ok || ld.Op != token.MUL {
+					continue
+				}
+				fa, ok := ld.X.(*ssa.FieldAddr)
+				if !ok || pidx(fa.X) < 0 {
+					continue
+				}
+				k, v := pidx(mu.Key), pidx(mu.Value)
+				if k >= 0 && v >= 0 {
+					e.putM[f] = [2]int{k, v}
+				}
+			}
+		}
+	}
+	return e.putM
+}
+
+// keyedWrites: (container object, key, value, position) of every keyed store executed in the loop body: a direct
+// map update, or a call of a keyed-store method
+func (e *detEngine) keyedWrites(l *orderLoop) [][4]interface{} {
+	var out [][4]interface{}
+	puts := e.putMethods()
+	for b := range l.body {
+		for _, ins := range b.Instrs {
+			switch x := ins.(type) {
+			case *ssa.MapUpdate:
+				out = append(out, [4]interface{}{x.Map, x.Key, x.Value, x.Pos()})
+			case *ssa.Call:
+				if g := x.Call.StaticCallee(); g != nil {
+					if kv, ok := puts[g]; ok && kv[0] < len(x.Call.Args) && kv[1] < len(x.Call.Args) {
+						out = append(out, [4]interface{}{x.Call.Args[0], x.Call.Args[kv[0]], x.Call.Args[kv[1]], x.Pos()})
+					}
+				}
+			}
+		}
+	}
+	return out
+}
+
+
+// lookedUpByOwnKey: obj is the result of a module function called with this loop's own key, and every pointer that
+// function returns is read out of a map entry selected by that parameter (m[k], an element of m[k], a field of it):
+// different keys of the loop give different containers
+func (e *detEngine) lookedUpByOwnKey(l *orderLoop, obj ssa.Value) bool {
+	v := obj
+	if ex, ok := v.(*ssa.Extract); ok {
+		v = ex.Tuple
+	}
+	call, ok := v.(*ssa.Call)
+	if !ok {
+		return false
+	}
+	g := call.Call.StaticCallee()
+	if g == nil || g.Blocks == nil || !e.c.IsModFn(g) {
+		return false
+	}
+	pj := -1
+	for j, a := range call.Call.Args {
+		if l.isOwnKey(a) {
+			pj = j
+		}
+	}
+	if pj < 0 || pj >= len(g.Params) {
+		return false
+	}
+	par := g.Params[pj]
+	var fromLookup func(v ssa.Value, d int) bool
+	fromLookup = func(v ssa.Value, d int) bool {
+		if d > 12 {
+			return false
+		}
+		switch x := v.(type) {
+		case *ssa.Lookup:
+			return x.Index == ssa.Value(par)
+		case *ssa.Extract:
+			return fromLookup(x.Tuple, d+1)
+		case *ssa.UnOp:
+			if x.Op == token.MUL {
+				return fromLookup(x.X, d+1)
+			}
+		case *ssa.IndexAddr:
+			return fromLookup(x.X, d+1)
+		case *ssa.FieldAddr:
+			return fromLookup(x.X, d+1)
+		case *ssa.Field:
+			return fromLookup(x.X, d+1)
+		case *ssa.Phi:
+			for _, ed := range x.Edges {
+				if c, isC := ed.(*ssa.Const); isC && c.IsNil() {
+					continue
+				}
+				if !fromLookup(ed, d+1) {
+					return false
+				}
+			}
+			return len(x.Edges) > 0
+		}
+		return false
+	}
+	n := 0
+	for _, b := range g.Blocks {
+		ret, ok := b.Instrs[len(b.Instrs)-1].(*ssa.Return)
+		if !ok {
+			continue
+		}
+		for i := range ret.Results {
+			r := retOperand(ret, i)
+			if _, isPtr := r.Type().Underlying().(*types.Pointer); !isPtr {
+				continue
+			}
+			if c, isC := r.(*ssa.Const); isC && c.IsNil() {
+				continue
+			}
+			if !fromLookup(r, 0) {
+				return false
+			}
+			n++
+		}
+	}
+	return n > 0
+}
+
 // accumulates: does the loop body have effects that build up a result (append, map store, effectful call)?
 func (e *detEngine) accumulates(l *orderLoop) bool {
 	for b := range l.body {
@@ -1286,6 +1436,29 @@ func (e *detEngine) analyseLoop(l *orderLoop) (taintLocal []ssa.Value, taintFiel
 		e.sites = append(e.sites, detSite{key: k, kind: kind, pos: pos, note: note + " — source: " + l.src})
 	}
 	g := e.grp(f)
+
+	// (0) keyed writes: in a loop of unspecified order, storing an element-dependent value under a key that is not
+	// the loop's own key, into a container that outlives the iteration, lets the iteration order decide which
+	// value a key ends up with (last writer wins; with an "only if absent" test: first writer wins)
+	for _, w := range e.keyedWrites(l) {
+		obj, key, val, pos := w[0].(ssa.Value), w[1].(ssa.Value), w[2].(ssa.Value), w[3].(token.Pos)
+		if l.isOwnKey(key) || l.perElementTarget(key, 0) && l.kind == "map" && l.isOwnKey(key) {
+			continue
+		}
+		if !l.dep(val) || !l.dep(key) && !l.dep(obj) {
+			continue // the same value whatever the order, or one fixed slot written with ... (handled as last-wins variable elsewhere)
+		}
+		if definedInBody(l, obj) && freshObject(obj) {
+			continue // a container made in this iteration
+		}
+		if l.perElementTarget(obj, 0) || e.lookedUpByOwnKey(l, obj) {
+			continue // the container belongs to the element (one per key of this loop)
+		}
+		if _, isC := key.(*ssa.Const); isC {
+			continue
+		}
+		add("keyed-write", pos, "stores an element-dependent value under a key that other iterations may produce too: which value the key ends up with depends on the iteration order")
+	}
 
 	// (1) early exits
 	accum := e.accumulates(l)
